@@ -645,12 +645,13 @@ func (info *decodeInfo) decodeCharString(code []byte) (*Glyph, error) {
 	return nil, errIncomplete
 }
 
-// Fix a float64 to a 16.16 fixed point number in the range [-32000, 32000].
+// Fix a float64 to a 16.16 fixed point number.  Values outside the range of
+// 16.16 numbers (these can only result from arithmetic overflow) are clamped.
 func fix(x float64) float64 {
-	if x > 32000 {
-		return 32000
-	} else if x < -32000 {
-		return -32000
+	if x > math.MaxInt32/65536.0 {
+		return math.MaxInt32 / 65536.0
+	} else if x < -32768 {
+		return -32768
 	}
 	return math.Round(x*65536) / 65536
 }
